@@ -26,6 +26,16 @@ func c19Bases() []Scenario {
 		out = append(out, s)
 	}
 	out = append(out, c12CSVScenarios(2)...)
+	// every branch of the closest writers: measure x {plain, -n, -n --table, -d --table}
+	tq := fastaOf("qa", "ACGTACGTAAAA", "qb", "ACGTACGTAACA")
+	tt := fastaOf("t0", "ACGTACGTAAAC", "t1", "ACGTACGTAAGA", "t2", "ACGTACGTAACA")
+	for _, m := range []string{"raw", "snp", "tn93"} {
+		for _, v := range []Call{{}, {N: 2}, {N: 2, Table: true}, {HasDist: true, MaxDist: 1, Table: true}} {
+			c := v
+			c.Cmd, c.Query, c.Target, c.Measure, c.Threads, c.NCPU = "closest", tq, tt, m, 2, 2
+			out = append(out, Scenario{Name: fmt.Sprintf("closest-%s-n%d-table%v-d%v/n2/t2", m, c.N, c.Table, c.HasDist), Family: "closest", Call: c})
+		}
+	}
 	return out
 }
 
@@ -54,6 +64,27 @@ func c19Scenarios(tier string) []Scenario {
 				s.FaultK, s.Persist = k, persist
 				s.Name = fmt.Sprintf("%s/write%d-of-%d/persist=%v", b.Name, k, cw.n, persist)
 				s.Mode = c19Mode(tier)
+				out = append(out, s)
+			}
+		}
+	}
+	// long inputs (beyond the channel buffers): faults at the first, every 10th and the last write,
+	// explored with at most one non-default scheduling choice
+	for _, b := range c12BigScenarios() {
+		var cw *countWriter
+		_, o := b.Call.CtlW(nil, func(w io.Writer) io.Writer { cw = &countWriter{w: w}; return cw })
+		if o.Outcome != "returned" || o.HasErr {
+			engine.EngineError("fault-free run of %s failed: %s", b.Name, o.String())
+		}
+		for k := 1; k <= cw.n; k++ {
+			if !(k == 1 || k == cw.n || k%10 == 0) {
+				continue
+			}
+			for _, persist := range []bool{false, true} {
+				s := b
+				s.FaultK, s.Persist = k, persist
+				s.Name = fmt.Sprintf("%s/write%d-of-%d/persist=%v", b.Name, k, cw.n, persist)
+				s.Mode = "D1M0"
 				out = append(out, s)
 			}
 		}
@@ -208,7 +239,7 @@ func init() {
 	register(&Prop{
 		ID:    "C19",
 		Level: "fault_enumeration",
-		Rule: "for every entry point that takes an io.Writer (toMultiAlign +-wrap, sam variants +-aggregate, variants GenBank/GFF +-aggregate / stdin, snps +-aggregate, updown list, topranking list/table fasta+csv, closest, closest -n list/table) on a 2-record input with 2 workers: a Write failure injected at the k-th call for EVERY k in 1..W (W = writes of the fault-free run), one-shot and persistent, each explored under every schedule with <=1 (thorough <=2) preemptions by the controlled scheduler; outcome returned(nil), deadlock or panic after the fault fired = violation. Process level: the real binary under RLIMIT_FSIZE=n for EVERY n below the fault-free output size, for every command incl. sam toPairAlign (stdout redirected to a file, and the output directory): exit status 0 = violation. " +
+		Rule: "for every entry point that takes an io.Writer (toMultiAlign +-wrap, sam variants +-aggregate, variants GenBank/GFF +-aggregate / stdin, snps +-aggregate, updown list, topranking list/table fasta+csv, closest, closest -n list/table) on a 2-record input with 2 workers: a Write failure injected at the k-th call for EVERY k in 1..W (W = writes of the fault-free run), one-shot and persistent, each explored under every schedule with <=1 (thorough <=2) preemptions by the controlled scheduler; outcome returned(nil), deadlock or panic after the fault fired = violation; the same for 60-record inputs (beyond the channel buffers) with the fault at the first, every 10th and the last write under <=1 non-default scheduling choice. Process level: the real binary under RLIMIT_FSIZE=n for EVERY n below the fault-free output size, for every command incl. sam toPairAlign (stdout redirected to a file, and the output directory): exit status 0 = violation. " +
 			"A case is one execution (fault position x mode x schedule) or one (command, byte limit); non-trivial = the fault fired and an error was returned; each generated once",
 		Assumptions: []string{
 			"a write failure is modelled as Write returning (0, err); short writes with nil error are outside io.Writer's contract",
